@@ -292,7 +292,7 @@ def _judge_a(ctx, comp, par, versions, pins, reverse_order, case, second, n_repo
         if top is None:
             return mock
         d = case["disk_refs"]
-        disk, stats = mg.disk_refs_repo(mock, os.path.join(top, nm), d["seed"] + len(nm), d["loose"])
+        disk, stats = mg.disk_refs_repo(mock, os.path.join(top, nm + " [v2] {a,b}*?"), d["seed"] + len(nm), d["loose"])
         ctx.count("refs_in_loose_files", stats[1])
         ctx.count("annotated_tags_in_loose_files", stats[3])
         ctx.count("annotated_tags_in_packed_refs", stats[0])
